@@ -241,6 +241,29 @@ func (g *gen) module() {
 	nimp := len(g.sigs)
 	g.nimp = nimp
 
+	// --- imported globals (shared with the library module), placed anywhere in the import
+	// section: import indices are per kind, so a global import before a function import must not
+	// disturb how calls to imported functions are typed ---
+	gimp := 0
+	if cfg.Lib != nil && len(cfg.Lib.Globals) > 0 && g.chance(50, "libglobals") {
+		k := g.rng(1, 3, "nlibglobals")
+		after := 0 // global imports keep their relative order: the i-th one gets global index i
+		for i := 0; i < k; i++ {
+			lg := cfg.Lib.Globals[g.intn(len(cfg.Lib.Globals), "libglobal")]
+			imp := wasmenc.Import{Mod: cfg.LibName, Name: lg.Export, Kind: wasmenc.KGlobal, Desc: wasmenc.GlobalType(lg.Type, lg.Mut)}
+			pos := after + g.intn(len(m.Imports)+1-after, "libglobalpos")
+			after = pos + 1
+			m.Imports = append(m.Imports, wasmenc.Import{})
+			copy(m.Imports[pos+1:], m.Imports[pos:])
+			m.Imports[pos] = imp
+			name := fmt.Sprintf("ig%d", gimp)
+			m.Exports = append(m.Exports, wasmenc.Export{Name: name, Kind: wasmenc.KGlobal, Idx: uint32(gimp)})
+			g.out.Globals = append(g.out.Globals, GlobalInfo{Index: uint32(gimp), Type: lg.Type, Mut: lg.Mut, Export: name})
+			gimp++
+		}
+		g.stat("imported-globals")
+	}
+
 	// --- memory ---
 	if !cfg.NoMemory && g.chance(92, "hasmem") {
 		pages := cfg.MemPages
@@ -267,13 +290,13 @@ func (g *gen) module() {
 
 	// --- globals ---
 	if cfg.Fuel {
-		g.fuelIdx = uint32(len(m.Globals))
+		g.fuelIdx = uint32(gimp + len(m.Globals))
 		m.Globals = append(m.Globals, wasmenc.Global{Type: I32, Mut: true, Init: wasmenc.NewB().I32Const(cfg.FuelInit).Bytes()})
 		m.Exports = append(m.Exports, wasmenc.Export{Name: "fuel", Kind: wasmenc.KGlobal, Idx: g.fuelIdx})
 		g.out.FuelGlob = "fuel"
 	}
 	if cfg.Sink {
-		g.sinkIdx = len(m.Globals)
+		g.sinkIdx = gimp + len(m.Globals)
 		m.Globals = append(m.Globals, wasmenc.Global{Type: I64, Mut: true, Init: wasmenc.NewB().I64Const(0).Bytes()})
 		m.Exports = append(m.Exports, wasmenc.Export{Name: "sink", Kind: wasmenc.KGlobal, Idx: uint32(g.sinkIdx)})
 		g.out.Sink = &GlobalInfo{Index: uint32(g.sinkIdx), Type: I64, Mut: true, Export: "sink"}
@@ -285,7 +308,7 @@ func (g *gen) module() {
 			ty = I32
 		}
 		mut := g.chance(75, "gmut")
-		idx := uint32(len(m.Globals))
+		idx := uint32(gimp + len(m.Globals))
 		var init []byte
 		if ty == FuncRef {
 			init = []byte{0xd0, FuncRef}
